@@ -153,7 +153,41 @@ def current_config(mab, case, inv):
     c["arms"] = [inv(a) for a in mab.arms]
     return c
 
+def gen_c07_warm_refit(rng):
+    """fit leaving arms cold -> warm_start (quantile 1: every cold arm receives a donor's model): the re-fit of run_c07 then leaves
+    the warm arms out of D in most cases - nothing of the donated state may survive it.  Linear and context-free policies."""
+    lin = rng.random() < 0.6
+    n_arms = rng.randint(3, 5)
+    arms = rng.sample(range(0, 12), n_arms)
+    cold = rng.sample(arms, rng.randint(1, n_arms - 2))
+    hot = [a for a in arms if a not in cold]
+    d = rng.randint(1, 3)
+    n = rng.randint(len(hot) + 3, 14)
+    ds = hot + [rng.choice(hot) for _ in range(n - len(hot))]
+    rng.shuffle(ds)
+    if lin:
+        kind = rng.choice(["lingreedy", "linucb"])
+        lp = (kind, 0.0 if kind == "lingreedy" else 0.5, rng.choice([0.5, 1.0, 2.0]), rng.random() < 0.3, True)
+        rs = [float(rng.randint(1, 6)) for _ in ds]
+        cx = gen.gen_ctx(rng, n, d)
+        style = "smallint"
+    else:
+        kind = rng.choice(["greedy", "ucb", "softmax", "thompson"])
+        lp = (kind, None) if kind == "thompson" else (kind, 0.0 if kind == "greedy" else gen.gen_hp(rng, kind))
+        rs = [float(rng.randint(0, 1)) for _ in ds] if kind == "thompson" else [float(rng.randint(1, 6)) for _ in ds]
+        cx = None
+        style = "binary" if kind == "thompson" else "smallint"
+    dim = rng.randint(2, 3)
+    feat = {a: [float(rng.randint(1, 5)) for _ in range(dim)] for a in arms}
+    keys = list(arms); rng.shuffle(keys)
+    ops = [("fit", ds, rs, cx), ("warm", keys, [feat[a] for a in keys], 1.0)]
+    base = {"arms": arms, "lp": lp, "np": None, "seed": rng.randint(0, 2**31 - 2), "ops": ops, "label": rng.choice(["int", "str"]),
+            "mode": "tol" if lin else "exact", "reward_style": style}
+    return {"base": base, "d_old": (d if lin else None), "seed2": rng.randint(0, 10**9), "same_width": True}
+
 def gen_c07(rng, tier):
+    if rng.random() < 0.1:
+        return gen_c07_warm_refit(rng)
     ctx = rng.random() < 0.6
     if ctx:
         base = gen.gen_ctx_case(rng, max_ops=5, warm=True, max_rows=25)
@@ -188,6 +222,15 @@ def run_c07(t):
     if base.get("np") and base["np"][0] == "knearest":
         n = max(n, base["np"][1])
     ds = [rng.choice(cur) for _ in range(n)]
+    # arms that hold a warm-start copy (or were trained) and do NOT occur in D: whatever they hold must be gone after fit(D)
+    try:
+        st = status_of(mab, inv)
+        keep_out = [a for a in cur if st.get(a, (False, False, None))[1]] or [a for a in cur if st.get(a, (False, False, None))[0]][:1]
+    except Exception:
+        keep_out = []
+    if keep_out and (t.get("same_width") or rng.random() < 0.6):
+        pool = [a for a in cur if a not in keep_out] or cur
+        ds = [rng.choice(pool) for _ in range(n)]
     if lp[0] == "thompson" and lp[1] is None:
         rs = [float(rng.randint(0, 1)) for _ in range(n)]
     else:
@@ -195,7 +238,7 @@ def run_c07(t):
     if d_old is None:
         cx = None
     else:
-        d_new = d_old if rng.random() < 0.6 else max(1, d_old + rng.choice([-1, 1, 2]))
+        d_new = d_old if (t.get("same_width") or rng.random() < 0.6) else max(1, d_old + rng.choice([-1, 1, 2]))
         cx = gen.gen_ctx(rng, n, d_new)
         if base.get("np") and base["np"][0] == "clusters":
             for i in range(min(n, 4)):
@@ -649,8 +692,31 @@ def run_c14(t):
     return True, {}
 
 # ------------------------------------------------------------------ C20
+def gen_c20_mixed_batches(rng):
+    """a stored-history policy whose training batches each name ONE arm, relabelled to an arm list that mixes int, str and float labels:
+    every batch is a homogeneous list (all numbers or all strings), so what the library stores must keep each label as it is when the
+    batches are joined"""
+    arms = [3, 4, 5] if rng.random() < 0.5 else [6, 1, 2]
+    d = rng.randint(1, 2)
+    npol = rng.choice([("knearest", 3, "euclidean"), ("radius", 50.0, "euclidean", None), ("clusters", 2, False), ("lsh", 1, 1, None)])
+    lp = rng.choice([("greedy", 0.0), ("ucb", 1.0)])
+    order = list(arms); rng.shuffle(order)
+    ops = []
+    first = True
+    for a in order + [rng.choice(arms)]:
+        n = rng.choice([2, 4])
+        b = ("fit" if first else "pfit", [a] * n, [float(rng.randint(1, 9)) for _ in range(n)], gen.gen_ctx(rng, n, d))
+        if first and npol[0] == "clusters":
+            b = ("fit", [a] * 4, [float(rng.randint(1, 9)) for _ in range(4)], [[float(i)] * d for i in range(4)])
+        ops.append(b); first = False
+        ops.append(("pexp", gen.gen_ctx(rng, 2, d)))
+    base = {"arms": arms, "lp": lp, "np": npol, "seed": rng.randint(0, 10**6), "ops": ops, "label": "int", "mode": "exact", "reward_style": "smallint"}
+    return {"kind": "relabel", "base": base, "style2": "mixed"}
+
 def gen_c20(rng, tier):
     kind = rng.choice(["relabel", "relabel", "permute", "permute", "shift", "scale"])
+    if kind == "relabel" and rng.random() < 0.1:
+        return gen_c20_mixed_batches(rng)
     if kind == "relabel":
         z = rng.random()
         if z < 0.3:
@@ -797,7 +863,7 @@ def run_c20(t):
 # ------------------------------------------------------------------ C17
 BAD_CLASSES = ["len_mismatch", "nonfinite", "nonbinary_ts", "ctx_presence", "ctx_rows", "ctx_width", "add_dup", "add_none", "add_nan",
                "add_inf", "rem_unknown", "warm_nondict", "warm_q_int", "warm_q_range", "warm_keys", "too_few_rows", "bad_types",
-               "predict_ctx_presence", "ctx_1d"]
+               "predict_ctx_presence", "ctx_1d", "predict_ctx_width"]
 
 def history_dims(base, upto):
     d = None; arms = list(base["arms"]); fitted = False; nrows = 0
@@ -823,7 +889,7 @@ def gen_c17(rng, tier):
     if npk == "clusters" and z < 0.4:
         cls = "too_few_rows"
     elif (npk != "none" or base["lp"][0] in gen.LIN_KINDS) and z < 0.55:
-        cls = rng.choice(["ctx_width", "ctx_rows", "predict_ctx_presence", "ctx_presence"])
+        cls = rng.choice(["ctx_width", "ctx_rows", "predict_ctx_presence", "ctx_presence", "predict_ctx_width"])
     elif base["lp"][0] == "thompson" and base["lp"][1] is None and z < 0.7:
         cls = "nonbinary_ts"
     if rng.random() < 0.05:
@@ -834,6 +900,20 @@ def gen_c17(rng, tier):
         base = {"arms": arms, "lp": (kind, 0.0 if kind == "lingreedy" else 1.0, 0.0, False, True), "np": None, "seed": rng.randint(0, 10**6),
                 "ops": [("fit", [3, 3], [1.0, 2.0], [[1.0, 0.0], [0.0, 1.0]])], "label": "int", "mode": "tol", "reward_style": "smallint"}
         return {"base": base, "pos": 1, "cls": "singular_l2_zero", "seed2": rng.randint(0, 10**9)}
+    if rng.random() < 0.08:
+        # the FIRST arm of the list never observed (its tree / regression / history is still empty), then a training call of another
+        # width that names it together with trained arms: a width check that looks at one arm only, or in arm order, must not let
+        # the cold arm train before a later arm raises
+        base = gen.gen_ctx_case(rng, nps=rng.choice([["tree"], ["tree"], ["none"], ["radius"]]), max_ops=3, warm=False, arm_changes=False)
+        a0 = base["arms"][0]; others = base["arms"][1:]
+        if others:
+            ops = []
+            for o in base["ops"]:
+                if o[0] in ("fit", "pfit"):
+                    o = (o[0], [d if d != a0 else others[i % len(others)] for i, d in enumerate(o[1])], o[2], o[3])
+                ops.append(o)
+            base["ops"] = ops
+            return {"base": base, "pos": len(ops), "cls": "ctx_width", "seed2": rng.randint(0, 10**9), "all_arms": True}
     if rng.random() < 0.12:
         # a linear policy with scale=True, arms without observations (omitted from the batches or added later), and a
         # call rejected from inside training: the per-arm scalers must not keep anything of it
@@ -841,12 +921,15 @@ def gen_c17(rng, tier):
         pos = rng.randint(1, len(base["ops"])); cls = "ctx_width"
     return {"base": base, "pos": pos, "cls": cls, "seed2": rng.randint(0, 10**9)}
 
-def bad_call(mab, label, inv, base, cls, rng, d, arms, fitted):
+def bad_call(mab, label, inv, base, cls, rng, d, arms, fitted, all_arms=False):
     """performs one invalid call; returns the exception (or None if the call was accepted / not applicable)"""
     contextual = mab.is_contextual
     n = rng.randint(2, 6)
     la = [label(a) for a in arms]
     ds = [rng.choice(la) for _ in range(n)]
+    if all_arms:
+        ds = list(la) + ds          # every arm is named, in arm-list order first
+        n = len(ds)
     ts = base["lp"][0] == "thompson"
     rs = [float(rng.randint(0, 1)) for _ in range(n)]
     dd = d or 2
@@ -906,6 +989,12 @@ def bad_call(mab, label, inv, base, cls, rng, d, arms, fitted):
         elif cls == "predict_ctx_presence":
             if not (contextual and fitted): return "n/a"
             mab.predict(None)
+        elif cls == "predict_ctx_width":
+            # contexts of another width in a query: the policies raise from inside prediction - after the row seeds / exploration
+            # draws unless the facade rejects the call first
+            if not (contextual and fitted and d): return "n/a"
+            q = gen.gen_ctx(rng, rng.randint(1, 3), d + 1 if (d == 1 or rng.random() < 0.5) else d - 1)
+            (mab.predict if rng.random() < 0.5 else mab.predict_expectations)(q)
         elif cls == "ctx_1d":
             if not fitted: return "n/a"
             mab.predict_expectations([1.0, 2.0])
@@ -923,7 +1012,7 @@ def run_c17(t):
     d, arms, fitted, nrows = history_dims(base, t["pos"])
     fitted = mab._is_initial_fit
     twin = copy.deepcopy(mab)
-    exc = bad_call(mab, label, inv, base, t["cls"], rng, d, arms, fitted)
+    exc = bad_call(mab, label, inv, base, t["cls"], rng, d, arms, fitted, all_arms=bool(t.get("all_arms")))
     if exc == "n/a":
         return True, {"skipped": "class not applicable here"}
     if exc is None:
@@ -1786,7 +1875,7 @@ def gen_sim(rng, tier, metrics=None, deterministic=False):
         rs = [abs(r) for r in rs]
     return {"arms": arms, "ds": ds, "rs": rs, "cx": cx, "bandits": bandits, "test_size": test_size, "is_ordered": rng.random() < 0.5,
             "batch_size": min(bs, n_test), "is_quick": rng.random() < 0.4, "seed": rng.randint(0, 10**6),
-            "container": rng.choice([0, 0, 0, 1, 2, 3, 4])}
+            "container": rng.choice([0, 0, 0, 1, 2, 3, 4]), "int_rs": rng.random() < 0.4}
 
 def build_sim_bandits(t):
     out = []
@@ -1812,12 +1901,16 @@ def sim_inputs(t, any_ctx):
     import pandas as pd
     k = t.get("container", 0)
     ds, rs = list(t["ds"]), list(t["rs"])
+    # integer-typed rewards (clicks, ratings) when the case asks for them and every reward is integral: same values, another dtype
+    as_int = bool(t.get("int_rs")) and all(float(x) == int(x) for x in rs)
+    if as_int:
+        rs = [int(x) for x in rs]
     cx = [list(r) for r in t["cx"]] if any_ctx else None
     if k == 0:
         return ds, rs, cx
     if k == 3:
-        return pd.Series(ds), pd.Series([float(x) for x in rs]), (pd.DataFrame(np.asarray(cx, dtype=float)) if cx is not None else None)
-    a_ds, a_rs = np.asarray(ds), np.asarray(rs, dtype=float)
+        return pd.Series(ds), pd.Series(rs if as_int else [float(x) for x in rs]), (pd.DataFrame(np.asarray(cx, dtype=float)) if cx is not None else None)
+    a_ds, a_rs = np.asarray(ds), (np.asarray(rs, dtype=np.int64) if as_int else np.asarray(rs, dtype=float))
     if cx is None:
         return a_ds, a_rs, None
     a = np.asarray(cx, dtype=float)
@@ -1980,6 +2073,31 @@ def gen_c15(rng, tier):
                 b["np"] = ("knearest", rng.randint(1, 4), rng.choice(ALL_SIM_METRICS))
         return t
     t = gen_sim(rng, tier, metrics=ALL_SIM_METRICS)
+    if rng.random() < 0.3:
+        # the shared distance dictionary: two or three neighbourhood bandits with ONE metric, KNearest and Radius in both orders,
+        # over deterministic learning policies; the radius is a distance that occurs in the data (neither 0 nor 1), so whatever a
+        # bandit leaves in the dictionary for its metric must be the plain distance
+        m = rng.choice(["euclidean", "euclidean", "cityblock", "sqeuclidean", "chebyshev"])
+        cx = np.asarray(t["cx"], dtype=float)
+        try:
+            from scipy.spatial.distance import cdist
+            dd = sorted(set(round(float(x), 9) for x in cdist(cx, cx[:3], metric=m).reshape(-1) if x == x and x > 0 and abs(x - 1.0) > 1e-9))
+        except Exception:
+            dd = []
+        r = dd[min(len(dd) - 1, rng.randint(0, max(0, len(dd) // 3)))] if dd else 2.5
+        kinds = [("knearest", rng.randint(1, 4), m), ("radius", float(r), m, None)]
+        if rng.random() < 0.5:
+            kinds.reverse()
+        if rng.random() < 0.4:
+            kinds.insert(rng.randint(0, 2), None)       # a linear bandit in between
+        bandits = []
+        for i, npol in enumerate(kinds):
+            if npol is None:
+                lp = ("linucb", 0.5, 1.0, False, True)
+            else:
+                lp = rng.choice([("greedy", 0.0), ("ucb", 1.0)])
+            bandits.append({"name": "b%d" % i, "lp": lp, "np": npol, "seed": rng.randint(0, 10**6)})
+        t["bandits"] = bandits
     return t
 
 def api_replay_completes(t):
